@@ -64,6 +64,15 @@ func c06Universe(cfg c06Config) []string {
 			set[v] = true
 		}
 	}
+	// long ids that share a long head (anything that truncates or digests a prefix of the id makes them collide)
+	for _, n := range []int{63, 64, 65, 100, 300} {
+		head := strings.Repeat("h", n)
+		set[head] = true
+		set[head+"A"] = true
+		set[head+"B"] = true
+		set[head+"/A/tail"] = true
+		set[head+"/B/tail"] = true
+	}
 	var ids []string
 	for id := range set {
 		ids = append(ids, id)
